@@ -241,6 +241,20 @@ Theorem c13_lex_tables_ok : tables_ok gen_tables = true.
 Proof. vm_compute. reflexivity. Qed.
 Print Assumptions c13_lex_tables_ok.
 
+(* the byte span of an s-/f-string token (what the parser's map_span reads, what interp_rebase starts from) is the
+   prefix character + the opening and closing quote runs + the source bytes of the items: InterpSpan's offsets are
+   offsets inside the lexer's token span.  (Lexer.v measures with blen : N, Span.v with byte_len : nat.) *)
+Theorem c13_interp_token_span : forall T c r0 k r',
+  tables_ok T = true -> p_interp T (c :: r0) = Some (k, r') ->
+  exists n items, interp_items T r0 = Some (n, items) /\ k = KInterp c (erase items) /\
+    byte_len (c :: r0) = Span.utf8_len c + quote_bytes n + all_src items + byte_len r'.
+Proof. exact interp_token_span. Qed.
+Print Assumptions c13_interp_token_span.
+
+Theorem c13_byte_len_is_lexer_blen : forall s, N.of_nat (byte_len s) = blen s.
+Proof. exact byte_len_blen. Qed.
+Print Assumptions c13_byte_len_is_lexer_blen.
+
 (* exact characterisation: right iff one quote character and no escape sequence before the end of the error *)
 Theorem c13_interp_rebase_exact : forall T s n items tok k1 k2,
   tables_ok T = true -> interp_items T s = Some (n, items) -> k1 <= k2 ->
